@@ -4,6 +4,7 @@ import (
 	"fmt"
 	"go/constant"
 	"go/token"
+	"go/types"
 	"strings"
 
 	"golang.org/x/tools/go/ssa"
@@ -24,7 +25,8 @@ func isLz4(f *ssa.Function, name string) bool {
 }
 
 type flagVar struct {
-	cell  *ssa.Alloc
+	cell  ssa.Value // *ssa.Alloc (a local captured by the handler) or *ssa.FieldAddr (a field of a command struct)
+	key   string    // "Type.field" for a struct field, "" for a local
 	name  string
 	usage string
 	kind  string // BoolVar, UintVar, ...
@@ -72,23 +74,39 @@ func checkC20(c *Check) {
 			continue
 		}
 		a := ci.Common().Args
-		cell, ok := a[1].(*ssa.Alloc)
-		if !ok {
-			continue
-		}
 		name, _ := constString(a[2])
 		usage, _ := constString(a[len(a)-1])
-		flags = append(flags, flagVar{cell, name, usage, f.Name()})
+		switch cell := a[1].(type) {
+		case *ssa.Alloc:
+			flags = append(flags, flagVar{cell, "", name, usage, f.Name()})
+		case *ssa.FieldAddr:
+			flags = append(flags, flagVar{cell, typeName(cell.X.Type()) + "." + fieldName(cell.X.Type(), cell.Field), name, usage, f.Name()})
+		}
 	}
 	if len(flags) < 5 {
 		c.Fail("R20.3", "lz4c#flags", p.Pos(comp.Pos()), "the five compress flags are resolved", fmt.Sprintf("only %d flag registrations found", len(flags)))
 	}
-	var handler *ssa.Function
-	allInstrs(comp, func(in ssa.Instruction) {
-		if mc, ok := in.(*ssa.MakeClosure); ok {
-			handler = mc.Fn.(*ssa.Function)
+	handlerOf := func(reg *ssa.Function) *ssa.Function {
+		var h *ssa.Function
+		allInstrs(reg, func(in ssa.Instruction) {
+			if mc, ok := in.(*ssa.MakeClosure); ok {
+				h = mc.Fn.(*ssa.Function)
+			}
+		})
+		if h != nil && h.Synthetic != "" {
+			// a bound method value (cmd.run): the handler is the method itself
+			for _, ci := range callsIn(h) {
+				if f := staticCallee(ci); f != nil && f.Pkg == reg.Pkg && len(f.Blocks) > 0 {
+					return f
+				}
+			}
 		}
-	})
+		if h == nil && len(reg.AnonFuncs) > 0 {
+			h = reg.AnonFuncs[0] // a function literal that captures nothing is not a closure
+		}
+		return h
+	}
+	handler := handlerOf(comp)
 	if handler == nil {
 		c.Fail("R20.3", "lz4c#handler", p.Pos(comp.Pos()), "Compress returns a handler closure", "no closure")
 		return
@@ -97,20 +115,56 @@ func checkC20(c *Check) {
 	// R20.3: loads of flag cells only inside closures
 	for _, fv := range flags {
 		early := ""
-		for _, r := range *fv.cell.Referrers() {
-			if u, ok := r.(*ssa.UnOp); ok && u.Op == token.MUL {
-				early = p.InstrPos(u)
+		if fv.key == "" {
+			for _, r := range *fv.cell.Referrers() {
+				if u, ok := r.(*ssa.UnOp); ok && u.Op == token.MUL {
+					early = p.InstrPos(u)
+				}
 			}
+		} else {
+			// a field of the command struct: no load of that field in the registering function
+			allInstrs(comp, func(in ssa.Instruction) {
+				if u, ok := in.(*ssa.UnOp); ok && u.Op == token.MUL {
+					if fa, isFA := u.X.(*ssa.FieldAddr); isFA && typeName(fa.X.Type())+"."+fieldName(fa.X.Type(), fa.Field) == fv.key {
+						early = p.InstrPos(u)
+					}
+				}
+			})
 		}
 		c.Sites++
-		c.Cond(early == "", "R20.3", "lz4c.compress#flag-read-after-parse:-"+fv.name, p.InstrPos(fv.cell), "the variable bound to flag -"+fv.name+" is read only inside the handler, i.e. after the command line has been parsed", "no load in Compress itself", "the variable of -"+fv.name+" is read at "+early+" while the flag set is still being defined: the flag can never have an effect")
+		c.Cond(early == "", "R20.3", "lz4c.compress#flag-read-after-parse:-"+fv.name, p.InstrPos(fv.cell.(ssa.Instruction)), "the variable bound to flag -"+fv.name+" is read only inside the handler, i.e. after the command line has been parsed", "no load in Compress itself", "the variable of -"+fv.name+" is read at "+early+" while the flag set is still being defined: the flag can never have an effect")
 	}
 	// map: free variable of the handler -> flag
 	fvOf := map[string]flagVar{}
 	for _, fv := range flags {
-		fvOf[fv.cell.Comment] = fv
+		if al, isAl := fv.cell.(*ssa.Alloc); isAl {
+			fvOf[al.Comment] = fv
+		} else {
+			fvOf[fv.key] = fv
+		}
 	}
-	flagOfValue := func(v ssa.Value) (flagVar, bool, bool) { // flag, negated, ok
+	// the functions of package main that run for the command: the handler and the helpers it calls
+	family := []*ssa.Function{handler}
+	{
+		seenF := map[*ssa.Function]bool{handler: true}
+		for i := 0; i < len(family) && i < 40; i++ {
+			g := family[i]
+			for _, a := range g.AnonFuncs {
+				if !seenF[a] {
+					seenF[a] = true
+					family = append(family, a)
+				}
+			}
+			for _, ci := range callsIn(g) {
+				if f := staticCallee(ci); f != nil && f.Pkg == handler.Pkg && len(f.Blocks) > 0 && !seenF[f] {
+					seenF[f] = true
+					family = append(family, f)
+				}
+			}
+		}
+	}
+	var flagOfValueD func(v ssa.Value, depth int) (flagVar, bool, bool)
+	flagOfValueD = func(v ssa.Value, depth int) (flagVar, bool, bool) { // flag, negated, ok
 		neg := false
 		for {
 			switch x := v.(type) {
@@ -121,22 +175,65 @@ func checkC20(c *Check) {
 					continue
 				}
 				if x.Op == token.MUL {
-					if fr, ok := x.X.(*ssa.FreeVar); ok {
-						fv, ok2 := fvOf[fr.Name()]
+					switch ad := x.X.(type) {
+					case *ssa.FreeVar:
+						fv, ok2 := fvOf[ad.Name()]
+						return fv, neg, ok2
+					case *ssa.FieldAddr:
+						fv, ok2 := fvOf[typeName(ad.X.Type())+"."+fieldName(ad.X.Type(), ad.Field)]
 						return fv, neg, ok2
 					}
 				}
 			case *ssa.Convert:
 				v = x.X
 				continue
+			case *ssa.ChangeType:
+				v = x.X
+				continue
+			case *ssa.Parameter:
+				// a helper of the command: the same flag, with the same polarity, at every call
+				g := x.Parent()
+				if depth <= 0 || g == nil || g == handler {
+					return flagVar{}, false, false
+				}
+				idx := -1
+				for i, pr := range g.Params {
+					if pr == x {
+						idx = i
+					}
+				}
+				var got flagVar
+				gotNeg, n := false, 0
+				for _, h := range family {
+					for _, ci := range callsIn(h) {
+						if staticCallee(ci) != g || idx < 0 || idx >= len(ci.Common().Args) {
+							continue
+						}
+						fv, ng, ok := flagOfValueD(ci.Common().Args[idx], depth-1)
+						if !ok || (n > 0 && (fv.name != got.name || ng != gotNeg)) {
+							return flagVar{}, false, false
+						}
+						got, gotNeg = fv, ng
+						n++
+					}
+				}
+				if n == 0 {
+					return flagVar{}, false, false
+				}
+				return got, neg != gotNeg, true
 			}
 			return flagVar{}, false, false
 		}
 	}
+	flagOfValue := func(v ssa.Value) (flagVar, bool, bool) { return flagOfValueD(v, 3) }
 	// option constructor calls in the handler
 	wantOpt := map[string]string{"bc": "BlockChecksumOption", "sc": "ChecksumOption", "c": "ConcurrencyOption", "size": "BlockSizeOption", "l": "CompressionLevelOption"}
 	seenOpt := map[string]string{}
-	for _, ci := range callsIn(handler) {
+	var famCalls []ssa.CallInstruction
+	for _, g := range family {
+		famCalls = append(famCalls, callsIn(g)...)
+	}
+	for _, ci := range famCalls {
 		f := staticCallee(ci)
 		if f == nil || f.Pkg == nil || f.Pkg.Pkg.Path() != modPath || !strings.HasSuffix(f.Name(), "Option") || len(ci.Common().Args) != 1 {
 			continue
@@ -178,8 +275,33 @@ func checkC20(c *Check) {
 				}
 			}
 		case "CompressionLevelOption":
+			// the level may reach the option through parameters of helpers: follow them to the value computed from the flag
+			for hops := 0; hops < 3; hops++ {
+				prm, isP := arg.(*ssa.Parameter)
+				if !isP || prm.Parent() == handler {
+					break
+				}
+				idx, g := -1, prm.Parent()
+				for i, pr := range g.Params {
+					if pr == prm {
+						idx = i
+					}
+				}
+				var sites []ssa.CallInstruction
+				for _, h := range family {
+					for _, cj := range callsIn(h) {
+						if staticCallee(cj) == g {
+							sites = append(sites, cj)
+						}
+					}
+				}
+				if idx < 0 || len(sites) != 1 {
+					break
+				}
+				arg = sites[0].Common().Args[idx]
+			}
 			if ph, isPhi := arg.(*ssa.Phi); isPhi {
-				ruleLevelSwitch(c, p, handler, ph, fvOf)
+				ruleLevelSwitch(c, p, ph.Parent(), ph, flagOfValue)
 				seenOpt["l"] = f.Name()
 			} else if call, isCall := arg.(*ssa.Call); isCall && inModuleOrMain(staticCallee(call), handler) && flagArgIndex(call, flagOfValue, "l") >= 0 {
 				ruleLevelHelper(c, p, call, staticCallee(call), flagArgIndex(call, flagOfValue, "l"))
@@ -196,21 +318,14 @@ func checkC20(c *Check) {
 		c.Cond(got == opt, "R20.4", "lz4c.compress#flag-to-option:-"+name, p.Pos(handler.Pos()), "flag -"+name+" flows into lz4."+opt, "found", "flag -"+name+" flows into '"+got+"' (expected "+opt+")")
 	}
 	// R20.7: one writer, options applied to it, then used
-	ruleConfiguredWriter(c, p, handler)
+	ruleConfiguredWriter(c, p, family)
 	// R20.5: mode bits
-	var uh *ssa.Function
-	allInstrs(unc, func(in ssa.Instruction) {
-		if mc, ok := in.(*ssa.MakeClosure); ok {
-			uh = mc.Fn.(*ssa.Function)
-		}
-	})
-	if uh == nil && len(unc.AnonFuncs) > 0 {
-		uh = unc.AnonFuncs[0] // a function literal that captures nothing is not a closure
-	}
-	for _, h := range []*ssa.Function{handler, uh} {
+	uh := handlerOf(unc)
+	for hi, h := range []*ssa.Function{handler, uh} {
 		if h == nil {
 			continue
 		}
+		cmdName := []string{"Compress", "Uncompress"}[hi]
 		c.Funcs[fname(h)] = true
 		n := 0
 		var hcalls []ssa.CallInstruction
@@ -246,10 +361,10 @@ func checkC20(c *Check) {
 					exact = true
 				}
 			}
-			c.Cond(exact, "R20.5", fmt.Sprintf("lz4c.%s#output-mode#%d", h.Parent().Name(), n), p.InstrPos(ci), "the output file is created with exactly the permission bits of the input file (Stat().Mode(), unmodified)", "mode argument is inputInfo.Mode()", "the mode argument is "+shortVal(mode)+", not the unmodified Mode() of the input")
+			c.Cond(exact, "R20.5", fmt.Sprintf("lz4c.%s#output-mode#%d", cmdName, n), p.InstrPos(ci), "the output file is created with exactly the permission bits of the input file (Stat().Mode(), unmodified)", "mode argument is inputInfo.Mode()", "the mode argument is "+shortVal(mode)+", not the unmodified Mode() of the input")
 		}
 		if n == 0 {
-			c.Fail("R20.5", "lz4c."+h.Parent().Name()+"#output-mode", p.Pos(h.Pos()), "output files are created with os.OpenFile", "no os.OpenFile call")
+			c.Fail("R20.5", "lz4c."+cmdName+"#output-mode", p.Pos(h.Pos()), "output files are created with os.OpenFile", "no os.OpenFile call")
 		}
 	}
 	// R20.9: the extension appended by compress is removed by uncompress as a suffix
@@ -270,12 +385,12 @@ func checkC20(c *Check) {
 	}
 }
 
-func ruleLevelSwitch(c *Check, p *Program, h *ssa.Function, ph *ssa.Phi, fvOf map[string]flagVar) {
+func ruleLevelSwitch(c *Check, p *Program, h *ssa.Function, ph *ssa.Phi, flagOfValue func(ssa.Value) (flagVar, bool, bool)) {
 	// the switched word: a load of the level flag in the handler
 	var w ssa.Value
 	allInstrs(h, func(in ssa.Instruction) {
 		if u, ok := in.(*ssa.UnOp); ok && u.Op == token.MUL && w == nil {
-			if fr, isF := u.X.(*ssa.FreeVar); isF && fvOf[fr.Name()].name == "l" {
+			if fv, _, isF := flagOfValue(u); isF && fv.name == "l" {
 				w = u
 			}
 		}
@@ -284,10 +399,10 @@ func ruleLevelSwitch(c *Check, p *Program, h *ssa.Function, ph *ssa.Phi, fvOf ma
 		c.Fail("R20.2", "lz4c.compress#level-map", p.InstrPos(ph), "the level switch reads the -l flag", "no load of the level variable in the handler")
 		return
 	}
-	sets := valueSetsAt(h, w, w.(ssa.Instruction).Block(), 64)
+	_, perEdge := valueSetsFull(h, func(v ssa.Value) bool { return stripSameWidth(v) == w }, w.(ssa.Instruction).Block(), 64)
 	var outs []levelOutcome
 	for i, e := range ph.Edges {
-		outs = append(outs, levelOutcome{sets[ph.Block().Preds[i]], e})
+		outs = append(outs, levelOutcome{perEdge[cfgEdge{ph.Block().Preds[i], ph.Block()}], e})
 	}
 	levelMapCheck(c, p.InstrPos(ph), outs)
 }
@@ -305,6 +420,28 @@ func levelMapCheck(c *Check, pos string, outs []levelOutcome) {
 		s := o.when
 		k, isK := constUint(o.val)
 		if !isK {
+			// a lookup in a package-level table indexed by the flag: table[v] for every v of this edge
+			if tab, n, isT := levelTableOf(o.val); isT {
+				for _, iv := range s {
+					if iv.hi >= n {
+						ok = false
+						why = append(why, fmt.Sprintf("the level table has %d entries but is indexed with values up to %d", n, iv.hi))
+						continue
+					}
+					for v := iv.lo; v <= iv.hi; v++ {
+						want := uint64(0)
+						if v >= 1 && v <= 9 {
+							want = 1 << (8 + v)
+						}
+						if got, has := tab[v]; (has && got != want) || (!has && want != 0) {
+							ok = false
+							why = append(why, fmt.Sprintf("-l %d selects level constant %d from the table, expected %d", v, tab[v], want))
+						}
+					}
+				}
+				covered = covered.union(s)
+				continue
+			}
 			ok = false
 			why = append(why, "non-constant level on an edge")
 			continue
@@ -339,7 +476,7 @@ func levelMapCheck(c *Check, pos string, outs []levelOutcome) {
 // return, are the outcomes of the mapping.
 func ruleLevelHelper(c *Check, p *Program, call *ssa.Call, f *ssa.Function, argIdx int) {
 	prm := f.Params[argIdx]
-	sets := valueSetsAt(f, prm, f.Blocks[0], 64)
+	sets, perEdge := valueSetsFull(f, func(v ssa.Value) bool { return stripSameWidth(v) == ssa.Value(prm) }, f.Blocks[0], 64)
 	var outs []levelOutcome
 	allInstrs(f, func(in ssa.Instruction) {
 		r, ok := in.(*ssa.Return)
@@ -349,7 +486,7 @@ func ruleLevelHelper(c *Check, p *Program, call *ssa.Call, f *ssa.Function, argI
 		res := r.Results[0]
 		if ph, isPhi := res.(*ssa.Phi); isPhi && ph.Block() == r.Block() {
 			for i, e := range ph.Edges {
-				outs = append(outs, levelOutcome{sets[ph.Block().Preds[i]], e})
+				outs = append(outs, levelOutcome{perEdge[cfgEdge{ph.Block().Preds[i], ph.Block()}], e})
 			}
 			return
 		}
@@ -358,11 +495,15 @@ func ruleLevelHelper(c *Check, p *Program, call *ssa.Call, f *ssa.Function, argI
 	levelMapCheck(c, p.InstrPos(call), outs)
 }
 
-func ruleConfiguredWriter(c *Check, p *Program, h *ssa.Function) {
+func ruleConfiguredWriter(c *Check, p *Program, family []*ssa.Function) {
 	var news []*ssa.Call
-	for _, ci := range callsIn(h) {
-		if call, ok := ci.(*ssa.Call); ok && isLz4(staticCallee(call), "NewWriter") {
-			news = append(news, call)
+	var h *ssa.Function // the function that creates the Writer (the handler or one of its helpers)
+	for _, g := range family {
+		for _, ci := range callsIn(g) {
+			if call, ok := ci.(*ssa.Call); ok && isLz4(staticCallee(call), "NewWriter") {
+				news = append(news, call)
+				h = g
+			}
 		}
 	}
 	if len(news) != 1 {
@@ -659,4 +800,87 @@ func ruleSinkBoundIn(c *Check, p *Program, h *ssa.Function, typ, cmd, rule strin
 	}
 	c.Cond(nBound >= 1 || nOpen == 0, rule, "lz4c."+cmd+"#reset-per-file", p.Pos(h.Pos()), "the handler opens a file per argument and binds the "+typ+" to it", fmt.Sprintf("%d opened files bound", nBound), "no opened file is bound to the "+typ+" by Reset before the copy")
 	return true
+}
+
+// levelTableOf: v is a load of an element of a package-level array; returns the constant elements written by the
+// package initialiser (by index; absent entries are zero) and the array length.
+func levelTableOf(v ssa.Value) (map[uint64]uint64, uint64, bool) {
+	ld, ok := v.(*ssa.UnOp)
+	if !ok || ld.Op != token.MUL {
+		return nil, 0, false
+	}
+	ia, ok := ld.X.(*ssa.IndexAddr)
+	if !ok {
+		return nil, 0, false
+	}
+	g, ok := ia.X.(*ssa.Global)
+	if !ok || g.Pkg == nil {
+		return nil, 0, false
+	}
+	pt, ok := g.Type().Underlying().(*types.Pointer)
+	if !ok {
+		return nil, 0, false
+	}
+	arr, ok := pt.Elem().Underlying().(*types.Array)
+	if !ok {
+		return nil, 0, false
+	}
+	init := g.Pkg.Func("init")
+	if init == nil {
+		return nil, 0, false
+	}
+	tab := map[uint64]uint64{}
+	good := true
+	allInstrs(init, func(in ssa.Instruction) {
+		st, isS := in.(*ssa.Store)
+		if !isS {
+			return
+		}
+		sa, isIA := st.Addr.(*ssa.IndexAddr)
+		if !isIA {
+			return
+		}
+		if sa.X != ssa.Value(g) {
+			// the literal is built in a temporary that is then copied into the variable
+			al, isAl := sa.X.(*ssa.Alloc)
+			if !isAl || al.Referrers() == nil {
+				return
+			}
+			copied := false
+			for _, r := range *al.Referrers() {
+				if ld, isLd := r.(*ssa.UnOp); isLd && ld.Op == token.MUL && ld.Referrers() != nil {
+					for _, rr := range *ld.Referrers() {
+						if s2, isS2 := rr.(*ssa.Store); isS2 && s2.Addr == ssa.Value(g) {
+							copied = true
+						}
+					}
+				}
+			}
+			if !copied {
+				return
+			}
+		}
+		i, okI := constUint(sa.Index)
+		k, okK := constUint(st.Val)
+		if !okI || !okK {
+			good = false
+			return
+		}
+		tab[i] = k
+	})
+	// the table must not be written anywhere else
+	for _, m := range g.Pkg.Members {
+		if f, isF := m.(*ssa.Function); isF && f != init {
+			for _, h := range withAnon(f) {
+				allInstrs(h, func(in ssa.Instruction) {
+					if st, isS := in.(*ssa.Store); isS {
+						if sa, isIA := st.Addr.(*ssa.IndexAddr); isIA && sa.X == ssa.Value(g) {
+							good = false
+						}
+					}
+				})
+			}
+		}
+	}
+	return tab, uint64(arr.Len()), good
 }
